@@ -125,6 +125,13 @@ func (c *c16Client) SendFlush(p pack.Pack, flush bool, opts ...wnet.TcpClientOpt
 		}
 	}
 	c.d.Emits = append(c.d.Emits, e)
+	// fault: a slow collector link: the hand-over blocks for a while (at most twice per run), so
+	// a backlog builds up in the queue behind it
+	if c.d.SlowClient && c.d.stalls < 2 && simrt.ChanceF(1, 3) {
+		c.d.stalls++
+		simrt.Fault("client_stall")
+		simrt.Sleep(time.Duration(1+simrt.ChooseF(int(c.d.WaitMs))) * time.Millisecond)
+	}
 	// fault: the client reports a send error for a pack it was nevertheless handed (dropped
 	// connection, failed flush, full client queue). The pack counts as handed over.
 	if c.d.ClientErrors && simrt.ChanceF(1, 5) {
@@ -149,10 +156,12 @@ type c16Rec struct {
 }
 
 type c16Data struct {
-	Configured   bool       `json:"configured"`
-	Retain       bool       `json:"retain"`
-	ClientErrors bool       `json:"client_errors"`
-	DirectOnly   bool       `json:"direct_only,omitempty"`
+	Configured   bool `json:"configured"`
+	Retain       bool `json:"retain"`
+	ClientErrors bool `json:"client_errors"`
+	DirectOnly   bool `json:"direct_only,omitempty"`
+	SlowClient   bool `json:"slow_client,omitempty"`
+	stalls       int
 	MaxBuf       int        `json:"max_buffer_size"`
 	WaitMs       int64      `json:"max_wait_time"`
 	ZipMin       int        `json:"zip_min_size"`
@@ -188,6 +197,7 @@ func c16Body(configured bool) func(rc *RunCtx) {
 		rc.Data = d
 		d.Retain = simrt.Chance(1, 2)
 		d.ClientErrors = simrt.ChanceF(1, 3)
+		d.SlowClient = simrt.ChanceF(1, 5)
 		client := &c16Client{d: d, retain: d.Retain}
 		ctx, cancel := context.WithCancel(context.Background())
 		zip.VerifReset()
@@ -347,12 +357,30 @@ func c16Body(configured bool) func(rc *RunCtx) {
 			})
 			tasks = append(tasks, tk)
 		}
+		if configured && !d.DirectOnly && simrt.ChanceF(1, 4) {
+			// configuration reload at runtime: only the queue size changes (possibly below the
+			// backlog of the moment); records already accepted stay accepted
+			at := simrt.ChooseF(int(d.WaitMs) + 30)
+			newSize := []int{1, 2, 3, 10, 1000}[simrt.ChooseF(5)]
+			tk := simrt.GoNamed("reconfig", func() {
+				simrt.Sleep(time.Duration(at) * time.Millisecond)
+				simrt.Fault("reconfig_queue_size")
+				inst.ApplyConfig(&stubConf{m: map[string]string{
+					"max_buffer_size": strconv.Itoa(d.MaxBuf), "max_wait_time": strconv.FormatInt(d.WaitMs, 10),
+					"logsink_zip_min_size": strconv.Itoa(d.ZipMin), "logsink_queue_size": strconv.Itoa(newSize)}})
+			})
+			tasks = append(tasks, tk)
+		}
 		for _, tk := range tasks {
 			simrt.Join(tk)
 		}
 		// flush liveness: after producers stop everything accepted is emitted within
 		// wait-time + one poll of virtual time
-		simrt.Settle(int64(time.Duration(2*d.WaitMs+1000) * time.Millisecond)) // generous: executing code costs virtual CPU time too
+		window := 2*d.WaitMs + 1000 // generous: executing code costs virtual CPU time too
+		if d.SlowClient {
+			window += 2 * d.WaitMs // plus the (at most two) stalls of a slow client
+		}
+		simrt.Settle(int64(time.Duration(window) * time.Millisecond))
 		d.EndMs = dateutil.SystemNow()
 	}
 }
